@@ -20,7 +20,8 @@ from vf.snapshot import snapshot_source
 RULE = (
     "A case is a pool of 2-3 G2 programs plus a history of 3-10 operations in one process (analyse program i; "
     "run a drawn subset of detectors in a drawn order, possibly twice; analyse several programs with one Tealer "
-    "object and run detectors over all of them; build the function again; run a printer). After every operation the canonical snapshot of the program touched (per-block contexts incl. "
+    "object and run detectors over all of them; build the function again; build two functions (dispatch paths) of "
+    "one contract on the same parse in a drawn order - the first one's contexts must equal those of the function built alone; run a printer). After every operation the canonical snapshot of the program touched (per-block contexts incl. "
     "all per-index / absolute / relative sub-contexts, ordered paths per detector, the JSON of every detector) "
     "must equal its baseline = the snapshot computed for that program alone in a fresh subprocess with "
     "PYTHONHASHSEED=0; a second fresh subprocess with another hash seed must give byte-identical output; "
@@ -156,8 +157,11 @@ def history_case(draw, disabled=()):
             order = draw(st.lists(st.integers(0, npool - 1), min_size=2, max_size=4))
             dets = draw(st.lists(st.sampled_from(ALL_DETECTORS), min_size=1, max_size=12, unique=True))
             ops.append(["multi", order[0], order, dets])
-        elif k == 8:
+        elif k == 8 and draw(st.booleans()):
             ops.append(["function", i])
+        elif k == 8:
+            # two functions of one contract (dispatch paths a, b picked by these numbers) built on one parse
+            ops.append(["functions", i, draw(st.integers(0, 200)), draw(st.integers(0, 200)), draw(st.booleans())])
         else:
             ops.append(["printer", i, draw(st.sampled_from(["cfg", "call-graph", "human-summary", "transaction-context"]))])
     return {"pool": [{k: p[k] for k in ("version", "items", "mode", "features")} for p in pool], "ops": ops,
@@ -225,6 +229,28 @@ def check(case):
             c2 = json.loads(json.dumps({str(k): v for k, v in adapter.function_contexts(fn2, deep=True).items()}))
             if c1 != base[i]["contexts"] or c2 != base[i]["contexts"]:
                 raise Violation("function-rebuild-changes-contexts", f"program {i}: building the function twice gives contexts that differ from baseline\n{t}")
+        elif op[0] == "functions":
+            # the contexts of a function must not depend on which other function of the same contract was built
+            # before or after it (subroutine blocks are shared between the functions of a contract)
+            from vf.props.c12 import build, fn_contexts, main_paths, in_cycle
+
+            g = RCFG(case["pool"][i])
+            paths = [pth for pth in main_paths(g) if not any(in_cycle(g, l) for l in pth[:-1])] or [[g.seq[0].line]]
+            longer = [pth for pth in paths if len(pth) >= 2] or paths
+            pa, pb = longer[op[2] % len(longer)], paths[op[3] % len(paths)]
+            teal = adapter.parse(t)
+            idx_of = {b.entry_instr.line: b.idx for b in teal.bbs}
+            ia, ib = [idx_of[l] for l in pa], [idx_of[l] for l in pb]
+            if op[4]:
+                fa = build(teal, ia, "fa")
+                build(teal, ib, "fb")
+            else:
+                build(teal, ib, "fb")
+                fa = build(teal, ia, "fa")
+                build(teal, ib, "fb2")
+            alone = build(adapter.parse(t), ia, "fa")
+            if fn_contexts(fa) != fn_contexts(alone):
+                raise Violation("other-function-changes-contexts", f"program {i}: function for path {pa} built {'before' if op[4] else 'between two builds of'} the function for path {pb} on the same parse has other contexts than built alone\n{t}")
         elif op[0] == "printer":
             from vf import cli
 
